@@ -251,10 +251,12 @@ class DictGen:
     'lists', 'nested', 'never_keys', 'falsy'.
     """
 
-    def __init__(self, rng, cfg, keys=None):
+    def __init__(self, rng, cfg, keys=None, no_list_keys=()):
         self.rng = rng
         self.cfg = cfg
         self.keys = list(keys) if keys else SCALAR_KEYS + SECTION_KEYS + DISPATCH_KEYS
+        # keys whose value reaches a dispatch / bind source: they must not resolve (through a '{L}' reference) to a list
+        self.no_list_keys = set(no_list_keys)
 
     def scalar(self, for_key=None):
         r = self.rng
@@ -309,6 +311,17 @@ class DictGen:
                 ok, v = lookup(pfx, o)
                 if ok and not isinstance(v, (dict, list)):
                     set_path(o, pfx, copy.deepcopy(empty))
+        for k in sorted(self.no_list_keys):
+            # (hashable dispatch values: a whole-reference chain '{B}' -> '{L}' -> [...] hands the reader a list)
+            cur, hops = k, 0
+            while hops < 6:
+                ok, v = lookup(cur, o)
+                if ok and isinstance(v, (list, dict)) and hops > 0:
+                    set_path(o, k, self.rng.choice(["a", "b", 1]))
+                    break
+                if not (ok and isinstance(v, str) and v.startswith("{") and v.endswith("}") and template_refs(v) == [v[1:-1]]):
+                    break
+                cur, hops = v[1:-1], hops + 1
         if not self.cfg.get("tmpl_in_container"):
             # no templated strings inside lists
             for k, v in list(o.items()):
